@@ -443,7 +443,7 @@ def dispatch(args):
 def run(chk):
     quick = chk.tier == 'quick'
     P = (chk.prop, chk.tier)
-    cases = [P + ('fb', n) for n in range(0, 4 if quick else 7)]
+    cases = [P + ('fb', n) for n in range(0, 4 if quick else 9)]
     for depths in ((0,), (1,), (2,), (0, 2), (2, 1)) if quick else ((0,), (1,), (2,), (3,), (0, 2), (2, 1), (2, 2), (1, 0, 2)):
         cases.append(P + ('fbstruct', depths))
     for i, (t, size, sg) in enumerate(INT_TYPES):
@@ -453,7 +453,7 @@ def run(chk):
     cases.append(P + ('bool', 'id_b', '_Bool', 1, False))
     cases.append(P + ('double', 'id_d', 'double', 8, True))
     cases.append(P + ('double', 'id_f', 'float', 4, True))
-    chk.bounds = {'exchange buffer': 'result + 0..%d arguments, each of symbolic size 1..64 and alignment 1,2,4,8,16' % (3 if quick else 6),
+    chk.bounds = {'exchange buffer': 'result + 0..%d arguments, each of symbolic size 1..64 and alignment 1,2,4,8,16' % (3 if quick else 8),
                   'struct by value': 'a struct argument whose fields are scalars or arrays of up to %d dimensions, every length 1..3' % (2 if quick else 3),
                   'generated wrappers': 'identity functions over %d integer types/typedefs, _Bool, float, double: every Python int / double; two multi-argument functions (argument routing)' % len(INT_TYPES)}
     chk.outside = ['libffi itself (assembly) and its ABI classification of the described struct; variadic calls',
